@@ -1079,3 +1079,83 @@ Proof.
   - split; [split; [apply SInv_init|apply LInv_init]|]. split; [intros id x Hgx; simpl in Hgx; discriminate|].
     split; [simpl; constructor|]. split; [intros id n hh Hx|intros id hh Hx]; simpl in Hx; discriminate.
 Qed.
+
+(** ** the checker on the model's own case, with its tracker and schedule *)
+Definition step_okt (Q7 Q8 : Z -> Prop) (univ : list (Z * Z)) (c : config) (s : state) (seen : list reqid) (ts : track * sched) (st : step) : Prop :=
+  forall pc pn pb fired,
+    Q7 (holds_C07 c (obs_of univ pc pn pb s) st (obs_step univ c s st))
+    /\ Q8 (holds_C08 seen fired (fst ts) (snd ts) (obs_of univ pc pn pb s) st (obs_step univ c s st)).
+
+Lemma check_from_clauses_t (Q7 Q8 : Z -> Prop) univ c : forall rest s seen ts,
+  (forall pre st post, rest = pre ++ st :: post ->
+     step_okt Q7 Q8 univ c (run c s pre) (model_seen univ c s seen pre) (model_ts univ c s ts pre) st) ->
+  forall pc pn pb fired i corr p7 c7 p8 c8,
+    let '(_, _, c7', _, c8') :=
+      check_from c s (obs_of univ pc pn pb s) seen fired (fst ts) (snd ts) (model_trace univ c s rest) i corr p7 c7 p8 c8 in
+    (c7' = c7 \/ Q7 c7') /\ (c8' = c8 \/ Q8 c8').
+Proof.
+  induction rest as [|st r IH]; intros s seen ts H pc pn pb fired i corr p7 c7 p8 c8.
+  - cbn [model_trace check_from]. split; left; reflexivity.
+  - cbn [model_trace]. rewrite check_from_cons.
+    destruct (H [] st r eq_refl pc pn pb fired) as (K7 & K8). cbn [run model_seen model_ts] in K7, K8.
+    set (p := obs_of univ pc pn pb s) in *. set (o := obs_step univ c s st) in *.
+    set (k7 := holds_C07 c p st o) in *. set (k8 := holds_C08 seen fired (fst ts) (snd ts) p st o) in *.
+    set (ts' := (update_track (fst ts) p st o, update_sched (snd ts) (fst ts) p st o)).
+    assert (H' : forall pre st0 post, r = pre ++ st0 :: post ->
+              step_okt Q7 Q8 univ c (run c (apply c s st) pre)
+                (model_seen univ c (apply c s st) (seen ++ map fst (created_in p o)) pre) (model_ts univ c (apply c s st) ts' pre) st0).
+    { intros pre st0 post E. exact (H (st :: pre) st0 post (f_equal (cons st) E)). }
+    pose proof (IH (apply c s st) (seen ++ map fst (created_in p o)) ts' H'
+                  (res_code (exec_step c s st)) (step_newctx s st (exec_step c s st)) (skipn (length (cblog s)) (cblog (apply c s st)))
+                  (fired ++ cb_keys (o_cb o)) (i + 1)
+                  (if (corr <? 0) && negb (corr_step s st (exec_step c s st) (apply c s st) o) then i else corr)
+                  (if (p7 <? 0) && negb (k7 =? 0) then i else p7) (if (p7 <? 0) && negb (k7 =? 0) then k7 else c7)
+                  (if (p8 <? 0) && negb (k8 =? 0) then i else p8) (if (p8 <? 0) && negb (k8 =? 0) then k8 else c8)) as G.
+    change (obs_of univ (res_code (exec_step c s st)) (step_newctx s st (exec_step c s st)) (skipn (length (cblog s)) (cblog (apply c s st))) (apply c s st))
+      with o in G. cbn [fst snd ts'] in G.
+    match goal with |- context [check_from ?a ?b ?cc ?d ?e ?f ?g ?h ?ii ?j ?k ?l ?m ?n] =>
+      destruct (check_from a b cc d e f g h ii j k l m n) as [[[[r1 r2] r3] r4] r5] end.
+    destruct G as (G7 & G8). split.
+    + destruct G7 as [G7|G7]; [|right; exact G7]. destruct ((p7 <? 0) && negb (k7 =? 0)); [right; rewrite G7; exact K7|left; exact G7].
+    + destruct G8 as [G8|G8]; [|right; exact G8]. destruct ((p8 <? 0) && negb (k8 =? 0)); [right; rewrite G8; exact K8|left; exact G8].
+Qed.
+
+Definition ok8t (k : Z) : Prop := k <> 1 /\ k <> 2 /\ k <> 3 /\ k <> 4 /\ k <> 5 /\ k <> 6 /\ k <> 8 /\ k <> 9.
+
+Theorem model_passes_clauses_C08_4_lemma :
+  forall c steps h0 t0 l0 univ,
+    c_msvc c < 0 -> 0 <= c_tax c -> clean l0 -> NoDup (create_txhs steps) -> Forall good_step steps ->
+    In (DEP, BASE) univ -> (forall d, In d (denoms c) -> In (REQ, d) univ) ->
+    (forall pre st post, steps = pre ++ st :: post -> forall rid q, get rid (reqs (run c (init h0 t0 l0) pre)) = Some q ->
+       In (TAX, q_fd q) univ /\ In (REQ, q_fd q) univ) ->
+    ledger_of (obs_of univ 0 None [] (init h0 t0 l0)) = l0 ->
+    forall corr p k, check_case_C08 (model_case univ c h0 t0 l0 steps) = (corr, p, k) ->
+      corr = -1 /\ k <> 1 /\ k <> 2 /\ k <> 3 /\ k <> 4 /\ k <> 5 /\ k <> 6 /\ k <> 8 /\ k <> 9.
+Proof.
+  intros c steps h0 t0 l0 univ Hm Htax Hcl Hnd Hgood Hu1 Hu2 Hu5 Hl corr p k Ek.
+  destruct (model_corresponds_to_itself_lemma c steps h0 t0 l0 univ Hnd Hl) as (_ & C8). cbv zeta in C8.
+  split; [exact (C8 corr p k Ek)|].
+  pose proof (model_step_ok c steps h0 t0 l0 univ Hm Htax Hcl Hnd Hgood Hu1 Hu2 Hu5) as H.
+  assert (H4 : forall pre st post, steps = pre ++ st :: post ->
+            step_okt ok7 ok8t univ c (run c (init h0 t0 l0) pre) (model_seen univ c (init h0 t0 l0) [] pre)
+              (model_ts univ c (init h0 t0 l0) ([], []) pre) st).
+  { intros pre st post E pc pn pb fired.
+    destruct (H pre st post E pc pn pb fired (fst (model_ts univ c (init h0 t0 l0) ([], []) pre)) (snd (model_ts univ c (init h0 t0 l0) ([], []) pre)))
+      as (K7 & K1 & K2 & K5 & K6 & K8 & K9).
+    split; [exact K7|]. split; [exact K1|]. split; [exact K2|].
+    assert (Hnd1 : NoDup (create_txhs (pre ++ [st]))).
+    { rewrite E in Hnd. replace (pre ++ st :: post) with ((pre ++ [st]) ++ post) in Hnd by (rewrite <- app_assoc; reflexivity).
+      rewrite create_txhs_app in Hnd. exact (NoDup_app_l _ _ Hnd). }
+    assert (Hg : good_step st) by (apply (proj1 (Forall_forall _ _) Hgood); rewrite E; apply in_elt).
+    split; [exact (model_passes_C08_clause_3_lemma c pre st h0 t0 l0 univ _ fired _ _ pc pn pb Hnd1 Hg)|].
+    split; [exact (model_passes_C08_clause_4_lemma c steps h0 t0 l0 univ Hnd Hgood pre st post E _ fired pc pn pb)|].
+    split; [exact K5|]. split; [exact K6|]. split; [exact K8|exact K9]. }
+  pose proof (check_from_clauses_t ok7 ok8t univ c steps (init h0 t0 l0) [] ([], []) H4 0 None [] [] 1
+                (if corr_state (init h0 t0 l0) (obs_of univ 0 None [] (init h0 t0 l0)) then -1 else 0) (-1) 0 (-1) 0) as G.
+  assert (E : check_all (model_case univ c h0 t0 l0 steps) = check_from c (init h0 t0 l0) (obs_of univ 0 None [] (init h0 t0 l0)) [] [] [] [] (model_trace univ c (init h0 t0 l0) steps) 1
+                (if corr_state (init h0 t0 l0) (obs_of univ 0 None [] (init h0 t0 l0)) then -1 else 0) (-1) 0 (-1) 0).
+  { unfold check_all, model_case. rewrite Hl. reflexivity. }
+  unfold check_case_C08 in Ek. rewrite E in Ek. cbn [fst snd] in G.
+  destruct (check_from _ _ _ _ _ _ _ _ _ _ _ _ _ _) as [[[[r1 r2] r3] r4] r5]. inversion Ek; subst.
+  destruct G as (_ & [->|G8]); [repeat split; discriminate|exact G8].
+Qed.
